@@ -1,5 +1,6 @@
 import OnlVerif.Lemmas.ResStep
 import OnlVerif.Lemmas.StrandStep
+import OnlVerif.Lemmas.StrandDemo
 /-!
 # C06 — resources never exceed capacity, grant in queue order, never idle a slot
 
@@ -278,6 +279,19 @@ example :
     · intro _ e he
       rw [hres] at he
       split at he <;> cases he
+
+/-! non-vacuity by a run (`Lemmas/StrandDemo.lean`): two processes `request → hold 5 → release` on a capacity-1
+`Resource`; after three kernel steps of the model the first one holds the slot and sleeps, the second one is queued, the
+only agenda entry is the timeout at 5.  All hypotheses of the theorems above hold, and the conclusion is not empty. -/
+example : SInv Demo.resS0 ∧ DReach Demo.resBody 3 Demo.resS0 Demo.resS3 ∧ AboutToAdvance Demo.resS3 ∧
+    (Demo.resS3.res 0).putQ ≠ [] ∧ ∃ c, (Demo.resS3.res 0).capacity = some c ∧ (Demo.resS3.res 0).users.length = c := by
+  have hq : (Demo.resS3.res 0).putQ ≠ [] := by
+    intro h
+    have := Demo.resS3_queue.1
+    rw [h] at this; cases this
+  exact ⟨Demo.resS0_sinv, Demo.resS3_reach, Demo.resS3_advance, hq,
+    queue_nonempty_at_advance_implies_full _ 3 _ _ Demo.resS0_sinv Demo.resS3_reach Demo.resS3_advance 0
+      Demo.resS3_queue.2 hq⟩
 
 /-! ## ---- end: "never strand a request" ---- -/
 
